@@ -66,6 +66,7 @@ Init == /\ wal = << [k |-> "snap", i |-> 0, t |-> 0] >>        \* wal.Create wri
         /\ vol = [last |-> 0, term |-> 1, commit |-> 0, snap |-> 0, lt |-> <<>>]
         /\ pend = <<>> /\ hist = <<>> /\ nready = 0 /\ ncrash = 0 /\ up = TRUE /\ rec = NoRec
 
+WalSnaps(w) == {[i |-> w[j].i, t |-> w[j].t] : j \in {x \in 1..Len(w) : w[x].k = "snap"}}
 TermAt(i) == IF i \in DOMAIN vol.lt THEN vol.lt[i] ELSE 0
 Idle == up /\ pend = <<>> /\ nready < MaxReady
 
@@ -112,6 +113,9 @@ LocalSnap ==
 \* whose commit is the snapshot index; the hard state record is synced only if the term changes with it
 InstallSnap(i, t) ==
   /\ Idle /\ i \in (vol.last + 1)..MaxIdx /\ t \in vol.term..MaxTerm
+  \* snapshots are of committed state: what this node's disk already knows about committed indexes (snapshot files and
+  \* WAL snapshot records, also those its recovery did not choose) is consistent with the new one
+  /\ \A s \in files \cup WalSnaps(wal) : (s.i = i => s.t = t) /\ (s.i < i => s.t <= t) /\ (s.i > i => s.t >= t)
   /\ LET sv == [op |-> "save", t |-> t, c |-> i, ents |-> <<>>, sync |-> (t # PrevT)]
          sf == [op |-> "snapfile", i |-> i, t |-> t]
          ws == [op |-> "walsnap", i |-> i, t |-> t]
@@ -145,7 +149,6 @@ Crash(n) ==
 \* ---- recovery: loadSnapshot + replayWAL ----
 LastHs(w) == LET H == {j \in 1..Len(w) : w[j].k = "hs"} IN
              IF H = {} THEN [t |-> 0, c |-> 0] ELSE LET m == CHOOSE j \in H : \A x \in H : x <= j IN [t |-> w[m].t, c |-> w[m].c]
-WalSnaps(w) == {[i |-> w[j].i, t |-> w[j].t] : j \in {x \in 1..Len(w) : w[x].k = "snap"}}
 Valid(w) == {s \in WalSnaps(w) : s.i <= LastHs(w).c}                     \* wal.ValidSnapshotEntries
 Chosen(w, F) == LET C == IF SnapshotMustBeInWal THEN {f \in F : f \in Valid(w)} ELSE F IN                   \* Snapshotter.LoadNewestAvailable
                 IF C = {} THEN [i |-> 0, t |-> 0] ELSE CHOOSE f \in C : \A g \in C : g.i <= f.i
